@@ -53,7 +53,7 @@ var signSpecs = buildSignSpecs()
 
 func buildSignSpecs() []*signSpec {
 	var l []*signSpec
-	const self = "the signature itself (ECDSA signatures are malleable by design; the object hash covers it instead)"
+	const self = "the signature itself (ECDSA signatures are malleable by design: (r, n-s) verifies for the same signer; where the signature matters the object hash covers it)"
 
 	l = append(l, &signSpec{
 		sp: mk("types.Transaction", (*types.Transaction).ToBytes, (*types.Transaction).FromBytes),
